@@ -26,8 +26,9 @@ import (
 )
 
 const (
-	lifespan  = 5 * time.Minute
-	parPrefix = "urn:ietf:params:oauth:request_uri:"
+	lifespan      = 5 * time.Minute
+	defaultPrefix = "urn:ietf:params:oauth:request_uri:"
+	customPrefix  = "urn:example:as:par:"
 	audience  = "https://api.example/v1"
 )
 
@@ -45,6 +46,9 @@ type pushed struct {
 	form     url.Values
 }
 
+// parPrefix is the configured request_uri prefix of the current run.
+var parPrefix = defaultPrefix
+
 type st struct {
 	w       *world.World
 	enforce bool
@@ -55,10 +59,17 @@ type st struct {
 func newState() *st {
 	s := &st{}
 	s.enforce = zz.Bool("cfg.enforcePAR")
+	parPrefix = defaultPrefix
+	if zz.Thorough() && zz.Choice("cfg.prefix", 2) == 1 {
+		parPrefix = customPrefix
+	}
 	s.w = world.New(world.Options{
 		Tweak: func(cfg *fosite.Config) {
 			cfg.PushedAuthorizeContextLifespan = lifespan
 			cfg.IsPushedAuthorizeEnforced = s.enforce
+			if parPrefix != defaultPrefix {
+				cfg.PushedAuthorizeRequestURIPrefix = parPrefix
+			}
 		},
 		Extra: []compose.Factory{compose.PushedAuthorizeHandlerFactory},
 	})
@@ -195,7 +206,11 @@ func (s *st) use(tag string, kind int) {
 		form.Set("request_uri", parPrefix+"bm90LWlzc3VlZC1ieS1hbnktcHVzaA")
 		isPAR = true
 	case kind == n+1:
-		form.Set("request_uri", "urn:example:foreign:"+"bm90LWlzc3VlZA")
+		if parPrefix == defaultPrefix {
+			form.Set("request_uri", "urn:example:foreign:"+"bm90LWlzc3VlZA")
+		} else {
+			form.Set("request_uri", defaultPrefix+"bm90LWlzc3VlZA") // the default prefix is foreign under a custom one
+		}
 	}
 	if isPAR {
 		// conflicting parameters sent alongside: none of them may have any effect
@@ -257,8 +272,10 @@ func (s *st) use(tag string, kind int) {
 	zz.Assert(ar.GetState() == p.state, tag+": state is the pushed one")
 	zz.Assert(strings.Join(ar.GetRequestedScopes(), " ") == strings.Join(scopesOf(p.scope), " "), tag+": requested scopes are the pushed ones")
 	zz.Assert(strings.Join(ar.GetRequestedAudience(), " ") == p.aud, tag+": requested audience is the pushed one")
-	for k, v := range p.form {
-		zz.Assert(ar.GetRequestForm().Get(k) == v[0], tag+": pushed form value "+k+" is not overridden by the query")
+	for _, k := range []string{"audience", "client_id", "client_secret", "redirect_uri", "response_type", "scope", "state"} {
+		if v, ok := p.form[k]; ok { // fixed order: map iteration differs between the engine and a native run
+			zz.Assert(ar.GetRequestForm().Get(k) == v[0], tag+": pushed form value "+k+" is not overridden by the query")
+		}
 	}
 }
 
